@@ -170,6 +170,10 @@ def build(r, name, derives, n=None, styles=True, allow_default=True, allow_disab
             rv.to_string = "raw-fallback-name"
     assert not model.overlaps(spec)
     gen.maybe_macro_wrap(r, spec)
+    if r.random() < 0.15:
+        spec.nest = True      # declared in a nested module, used from the parent; half of the time with a restricted visibility
+        if r.random() < 0.5:
+            spec.vis = r.choice(["pub(crate)", "pub(super)"])
     return spec
 
 
